@@ -87,3 +87,49 @@ Proof.
   - unfold ints_op; simpl; rewrite wrap64_id by assumption; reflexivity.
   - rewrite ints_div_truncates by assumption. rewrite wrap64_id by assumption. reflexivity.
 Qed.
+
+(* ---------- NaN ---------- *)
+(* These statements are about ALL binary64 values, so they cannot be computed: they rest on the
+   standard library's specification of the primitive comparisons against SpecFloat
+   (FloatAxioms.eqb_spec, ltb_spec, leb_spec - axioms the standard library declares). *)
+
+Definition is_nan_f (x : float) : bool := negb (PrimFloat.eqb x x).
+
+Lemma sfcompare_refl_nonnan s : s <> S754_nan -> SFcompare s s = Some Eq.
+Proof.
+  destruct s as [b|b| |b m e]; intros H; try congruence.
+  - reflexivity.
+  - destruct b; reflexivity.
+  - cbn [SFcompare]. destruct b; rewrite Z.compare_refl.
+    all: try rewrite Pos.compare_cont_refl; try rewrite Pos.compare_refl; try reflexivity.
+Qed.
+
+Lemma nan_prim2sf x : is_nan_f x = true -> Prim2SF x = S754_nan.
+Proof.
+  unfold is_nan_f. rewrite FloatAxioms.eqb_spec. unfold SFeqb. intros H.
+  destruct (Prim2SF x) eqn:E; try reflexivity; rewrite sfcompare_refl_nonnan in H by congruence; discriminate.
+Qed.
+
+Lemma sfcompare_nan_l s : SFcompare S754_nan s = None. Proof. reflexivity. Qed.
+Lemma sfcompare_nan_r s : SFcompare s S754_nan = None. Proof. destruct s as [b|b| |b m e]; try reflexivity; destruct b; reflexivity. Qed.
+
+(* every ordered comparison with NaN is false, == is false, != is true, on either side *)
+Theorem nan_comparisons x y : is_nan_f x = true ->
+  floats_op o_lt x y = OpV (VBool false) /\ floats_op o_lt y x = OpV (VBool false) /\
+  floats_op o_le x y = OpV (VBool false) /\ floats_op o_le y x = OpV (VBool false) /\
+  floats_op o_gt x y = OpV (VBool false) /\ floats_op o_gt y x = OpV (VBool false) /\
+  floats_op o_ge x y = OpV (VBool false) /\ floats_op o_ge y x = OpV (VBool false) /\
+  floats_op o_eq x y = OpV (VBool false) /\ floats_op o_eq y x = OpV (VBool false) /\
+  floats_op o_ne x y = OpV (VBool true) /\ floats_op o_ne y x = OpV (VBool true).
+Proof.
+  intros H. apply nan_prim2sf in H.
+  assert (L1 : PrimFloat.ltb x y = false) by (rewrite FloatAxioms.ltb_spec; unfold SFltb; rewrite H; reflexivity).
+  assert (L2 : PrimFloat.ltb y x = false) by (rewrite FloatAxioms.ltb_spec; unfold SFltb; rewrite H, sfcompare_nan_r; reflexivity).
+  assert (L3 : PrimFloat.leb x y = false) by (rewrite FloatAxioms.leb_spec; unfold SFleb; rewrite H; reflexivity).
+  assert (L4 : PrimFloat.leb y x = false) by (rewrite FloatAxioms.leb_spec; unfold SFleb; rewrite H, sfcompare_nan_r; reflexivity).
+  assert (L5 : PrimFloat.eqb x y = false) by (rewrite FloatAxioms.eqb_spec; unfold SFeqb; rewrite H; reflexivity).
+  assert (L6 : PrimFloat.eqb y x = false) by (rewrite FloatAxioms.eqb_spec; unfold SFeqb; rewrite H, sfcompare_nan_r; reflexivity).
+  unfold floats_op. cbn. rewrite L1, L2, L3, L4, L5, L6. repeat split; reflexivity.
+Qed.
+Example nan_exists : is_nan_f (PrimFloat.div 0%float 0%float) = true. Proof. reflexivity. Qed.
+Example inf_minus_inf_is_nan : is_nan_f (PrimFloat.sub infinity infinity) = true. Proof. reflexivity. Qed.
